@@ -86,7 +86,7 @@ impl Prop for C10 {
     type Scn = Scn;
     fn runs(tier: Tier) -> u64 {
         match tier {
-            Tier::Quick => 200_000,
+            Tier::Quick => 600_000,
             Tier::Thorough => 50_000_000,
         }
     }
